@@ -364,6 +364,10 @@ func main() {
 	waitForHealthy()
 	go runHealthChecks()
 
+	// Listen for the shutdown signals before asking the proxy for work, so that a signal
+	// that arrives right after start-up still leads to a graceful shutdown.
+	osShutdownSignalCh := utils.ShutdownSignalChan()
+
 	requestPollingCtx, requestPollingCancel := context.WithCancel(ctx)
 
 	go func(ctx context.Context) {
@@ -372,7 +376,6 @@ func main() {
 		}
 	}(ctx)
 
-	osShutdownSignalCh := utils.ShutdownSignalChan()
 	<-osShutdownSignalCh
 
 	if *gracefulShutdownTimeout > 0 {
